@@ -74,4 +74,27 @@ theorem C02_call_vars (w : World) (cx : Ctx) (base : Env) (c : Cache)
 example : product [(0, [[1], [2]]), (1, [[7], [8]])] =
     [[(0, [1]), (1, [7])], [(0, [1]), (1, [8])], [(0, [2]), (1, [7])], [(0, [2]), (1, [8])]] := by decide
 
+/-- **C02 (loop variable).** Every iteration sees its OWN element under the loop variable,
+whatever variable of that name exists already; every other name is seen as the task sees it. -/
+theorem C02_loop_var_own_element (lv : Name) (vars : List (Name × Str)) (items : List Str) (refs : List Name) :
+    loopRender lv vars items refs =
+      items.map (fun it => refs.map (fun x => if x = lv then some it else vars.lookup x)) := by
+  unfold loopRender lookupExtra
+  congr 1
+  funext it
+  congr 1
+  funext x
+  by_cases h : x = lv
+  · subst h; simp [List.lookup]
+  · have hb : (x == lv) = false := by simpa using h
+    simp [List.lookup, h, hb]
+
+/-- one execution per element, in list order -/
+theorem C02_loop_one_per_element (lv : Name) (vars : List (Name × Str)) (items : List Str) (refs : List Name) :
+    (loopRender lv vars items refs).length = items.length := by simp [loopRender]
+
+/-- non-vacuity: a task variable named like the loop variable does not hide the elements -/
+example : loopRender 7 [(7, [115]), (8, [120])] [[97], [98]] [7, 8] =
+    [[some [97], some [120]], [some [98], some [120]]] := by decide
+
 end Props.C02Vars
